@@ -144,6 +144,7 @@ int main(int argc, char ** argv) {
             jnum(js, "good", f.good() ? 1 : 0, first);
             MemFile f2; y->write(f2);
             jnum(js, "rewrite_equal", (f2.buf == f.buf) ? 1 : 0, first);
+            for (auto & p : gets) { unsigned long long o = 0; op(y, cls, "get", p, 0, &o); jnum(js, ("y:" + p).c_str(), (long long)o, first); }
             delete y;
         }
     }
